@@ -149,27 +149,30 @@ def parseLong (p : PSpec) (afterParen : Bytes) : Option (PSpec × Bytes) :=
   if kws.isEmpty then some (p, rest)
   else (applyKeywords p (splitKw kws)).map fun p' => (p', rest)
 
+/-- what follows the short keywords: the long form if a `(` comes next -/
+def afterShort (p : PSpec) (rest : Bytes) : Option (PSpec × Bytes) :=
+  match rest with
+  | 40 :: after => parseLong p after
+  | _ => some (p, rest)
+
+/-- the magic signature: the spec so far and the bytes of the path part -/
+def parseMagic (input : Bytes) : Option (PSpec × Bytes) :=
+  match input with
+  | 58 :: rest =>
+    match parseShort rest false false with
+    | none => none
+    | some (t, e, rest') => afterShort { PSpec.default with top := t, exclude := e } rest'
+  | _ => some (PSpec.default, input)
+
+/-- the path part: a trailing slash becomes MUST_BE_DIR -/
+def finishSpec (p : PSpec) (path : Bytes) : PSpec :=
+  if path.getLast? == some 47 then { p with mustBeDir := true, path := path.dropLast } else { p with path := path }
+
 /-- `Pattern::from_bytes` with default `Defaults`; `none` = any `parse::Error` -/
 def parseSpec (input : Bytes) : Option PSpec :=
   if input.isEmpty then none
   else if input == [58] then some { PSpec.default with nil := true }
-  else
-    let magic : Option (PSpec × Bytes) :=
-      match input with
-      | 58 :: rest =>
-        match parseShort rest false false with
-        | none => none
-        | some (t, e, rest') =>
-          let p := { PSpec.default with top := t, exclude := e }
-          match rest' with
-          | 40 :: after => parseLong p after
-          | _ => some (p, rest')
-      | _ => some (PSpec.default, input)
-    match magic with
-    | none => none
-    | some (p, path) =>
-      if path.getLast? == some 47 then some { p with mustBeDir := true, path := path.dropLast }
-      else some { p with path := path }
+  else (parseMagic input).map fun r => finishSpec r.1 r.2
 
 /-! ### normalize (empty prefix) -/
 
@@ -229,8 +232,10 @@ def commonLen : Nat → Bytes → Bytes → Nat
   | _ + 1, _, [] => 0
   | n + 1, a :: as, b :: bs => if a == b then commonLen n as bs + 1 else 0
 
+def Mapping.always (m : Mapping) : Bool := m.spec.nil || m.spec.path.isEmpty
+
 def literalLen (m : Mapping) : Nat :=
-  if m.spec.icase then 0 else m.fwp.getD m.spec.path.length
+  if m.spec.icase then 0 else if m.always then 0 else m.fwp.getD m.spec.path.length
 
 /-- `common_prefix_len` -/
 def commonPrefixLen (ms : List Mapping) : Nat :=
@@ -277,7 +282,7 @@ def matchGlob (env : Env) (m : Mapping) (path : Bytes) (isDir pathname : Bool) :
   if g then true else matchVerbatim m path isDir
 
 def pathMatch (env : Env) (m : Mapping) (path : Bytes) (isDir : Bool) : Bool :=
-  if m.spec.nil || m.spec.path.isEmpty then true
+  if m.always then true
   else if m.fwp.isNone then matchVerbatim m path isDir
   else match m.spec.mode with
     | Mode.shell => matchGlob env m path isDir false
